@@ -15,6 +15,9 @@ CLAIMED = {
  "C07": ("C07 PAT decoding over carriers", "§4 C07",
    "Seeded search over abstract PATs (0..42 entries, network entry, reserved bits, PIDs > 255) x PAT packet adaptation-field style x position chosen by a scripted multiplexer among foreign packets x later different PAT x absent PAT x end of stream inside the PAT packet x every Read outcome of a scripted reader; payload, packet and stream carriers decoded in the same run and compared with the abstract PAT, IsPMT probed. Sampling, not proof; the simulated dimension is thin (stream position, fragmentation, EOF/error placement, carrier equivalence).",
    "Trusts the reference serialiser; pointer_field 0 and distinct program numbers only."),
+ "C09": ("C09 SCTE-35 encoder under setter histories", "§4 C09",
+   "Seeded search over caller histories (<=40 steps, up to 150 in the thorough tier) on a graph of mutable objects - one signal (created, or decoded from a reference-serialised canonical section), a pool of null/time_signal/splice_insert command objects and three segmentation descriptors - calling every setter in any order (flags set and cleared, values at and beyond field widths, UPID/multiple-UPID changes incl. documented no-effect calls, component lists), attaching/replacing commands and descriptor lists, encoding at arbitrary points. After every step every getter of every object is compared with a logical model and Data() with the last encoding; every encoding is compared byte for byte with a reference serialiser written from SCTE 35 (CRC zero, idempotent, part encodings), decoded again (every visible field), and the decoded signal re-encoded (identical). Quick: 2.0e6 histories; thorough: 2.0e8.",
+   "Histories only - there is no reader, sink or clock in this property; the 'faults' are caller behaviours (values beyond the field width, documented no-effect calls). pts_adjustment is compared only when the command carries a time; ambiguous states after a lone SetUPIDType / SetTypeID are not compared; time-less time_signal / timed splice_insert are encoded but not decoded (library documents them unsupported)."),
  "C10": ("C10 SCTE-35 state tracker", "§4 C10",
    "Discrete-event simulation on a 90 kHz clock: encoder workloads (generated broadcast day with nesting, breakaway/resumption, stream-switch events, PTS wrap; adversarial alphabet) -> optional real transport (packetiser -> accumulator -> decoder) -> scripted channel (drop, duplicate, same-object repeat, late duplicate beyond the ring, reorder) -> tracker, with duration timers calling Close early/late/twice/after close and explicit/unknown Closes; an invariant monitor over public results only is evaluated after every call; complete sweep of all histories of length <=4 over a 9-letter alphabet. Sampling beyond the sweep.",
    "Trusts CanClose/Equal as the closing rules (C19's subject) and the monitor's reading of 'open' = Open() + pending breakaways; completeness of Open() is not demanded."),
@@ -37,7 +40,6 @@ NA = {
  "C02": "payload/header partition and SetPayload are single calls on one packet; creation helpers are pure constructors: nothing to schedule or fault",
  "C04": "PCR/PTS codecs are pure integer<->bytes functions; the end-to-end clauses are set-then-get pairs with no intervening state",
  "C08": "NewSCTE35 is a pure function of one byte string",
- "C09": "encoding is a pure function of the field assignment; setters are independent last-write-wins assignments that never fail, so a setter history has no order dependence or refusal to simulate",
  "C11": "NewPESHeader/PESHeader/AlignedPUSI are pure functions of one byte string / packet",
  "C12": "EBP decode/encode and NTP time conversion are pure (time is an argument; the only clock read, EBPSuccessReadTime, is outside the property)",
  "C13": "ComputeCRC is a pure function of one byte string",
